@@ -4,6 +4,7 @@ import (
 	"go/ast"
 	"go/parser"
 	"go/token"
+	"os"
 	"strings"
 )
 
@@ -13,7 +14,11 @@ import (
 
 func parseRepoFile(name string) (*token.FileSet, *ast.File) {
 	fset := token.NewFileSet()
-	f, err := parser.ParseFile(fset, "/repo/"+name, nil, 0)
+	root := os.Getenv("VERIF_REPO")
+	if root == "" {
+		root = "/repo"
+	}
+	f, err := parser.ParseFile(fset, root+"/"+name, nil, 0)
 	if err != nil {
 		return fset, nil
 	}
